@@ -24,6 +24,11 @@ fn bracket(seg: Vec<u8>) -> Vec<u8> {
     o
 }
 
+/// a FILTERING mapping: segments whose first byte is `a` map to nothing at all, everything else is bracketed
+fn bracket_or_drop(seg: Vec<u8>) -> Vec<u8> {
+    if seg.first() == Some(&b'a') { vec![] } else { bracket(seg) }
+}
+
 /// reference: mapping of each marker-terminated segment, then of the non-empty remainder
 fn ref_mapped(input: &[u8], marker: u8, f: &dyn Fn(Vec<u8>) -> Vec<u8>) -> Vec<u8> {
     let mut out = vec![];
@@ -101,6 +106,13 @@ fn run_mapped(input: &[u8], mask: u32, empties: bool, fin: Fin, marker: u8, f: f
 }
 
 fn check_mapped(input: &[u8], mask: u32, empties: bool, fin: Fin) -> Check {
+    // every third chunking uses the filtering mapping (some segments map to the empty string)
+    if mask % 3 == 2 {
+        let want = ref_mapped(input, MARK, &bracket_or_drop);
+        let got = run_mapped(input, mask, empties, fin, MARK, bracket_or_drop).map_err(|e| Fail::new("C19:mapped-write:io-error", e))?;
+        ensure!(got == want, "C19:mapped-write:output-differs", "filtering mapping, input {:?} chunk-mask {mask:b} empties={empties} {fin:?}: got {:?} want {:?}", String::from_utf8_lossy(input), String::from_utf8_lossy(&got), String::from_utf8_lossy(&want));
+        return Ok(());
+    }
     let want = ref_mapped(input, MARK, &bracket);
     let got = run_mapped(input, mask, empties, fin, MARK, bracket).map_err(|e| Fail::new("C19:mapped-write:io-error", e))?;
     if got != want {
@@ -756,7 +768,7 @@ fn run_early_close(ctx: &Ctx, sleeps_ms: &[u64]) {
 }
 
 pub fn run(ctx: &Ctx) {
-    ctx.set_rule("(1) child scripts: 0..8 steps of (stream, size in {0,1..200,4096,65536,65537,..262144}, pause), single-threaded interleaved or one thread per stream, early close of a stream, exit code, in 1 of 5 scripts a supplied writer that fails after 0/10/5000/70000 bytes (the call must still come back); otherwise the supplied writers accept at most 7 (and answer Interrupted on every third call) / 4096 / 100000 / unbounded bytes per write call (chosen per stream); run through output_and_write_streams and spawn_and_write_streams, compared bytewise with the script's per-stream content; children that close both streams and keep running for 3-6 s must not delay the return of spawn_and_write_streams. (2) MappedWrite: EXHAUSTIVE all byte strings of length <= L over {marker,a,b} (L=8 quick, 10 thorough) x all 2^(n-1) chunkings into write calls (+ zero-length writes on every fifth chunking) x finalisation by drop and by unwrap, mapping seg -> '[' seg ']'; sampled inputs <=200 bytes with add_prefix / map_utf8_lossy / repeat under random chunkings. (3) TeeWrite under the same chunkings, fed by write and (odd chunkings) by one write_vectored call over all chunks, with short-writing targets (1..3 bytes per write; odd bounds also answer Interrupted on every third call). MappedWrite chunkings with empty writes also flush between the write calls. Non-trivial: (1) a stream carries more than one 64 KiB pipe buffer while the other stream is still open; (2) input contains a marker and a write boundary falls inside a segment; distinct = hash of script / (input, chunking).");
+    ctx.set_rule("(1) child scripts: 0..8 steps of (stream, size in {0,1..200,4096,65536,65537,..262144}, pause), single-threaded interleaved or one thread per stream, early close of a stream, exit code, in 1 of 5 scripts a supplied writer that fails after 0/10/5000/70000 bytes (the call must still come back); otherwise the supplied writers accept at most 7 (and answer Interrupted on every third call) / 4096 / 100000 / unbounded bytes per write call (chosen per stream); run through output_and_write_streams and spawn_and_write_streams, compared bytewise with the script's per-stream content; children that close both streams and keep running for 3-6 s must not delay the return of spawn_and_write_streams. (2) MappedWrite: EXHAUSTIVE all byte strings of length <= L over {marker,a,b} (L=8 quick, 10 thorough) x all 2^(n-1) chunkings into write calls (+ zero-length writes on every fifth chunking) x finalisation by drop and by unwrap, mapping seg -> '[' seg ']' (every third chunking: a filtering mapping that maps segments starting with 'a' to nothing); sampled inputs <=200 bytes with add_prefix / map_utf8_lossy / repeat under random chunkings. (3) TeeWrite under the same chunkings, fed by write and (odd chunkings) by one write_vectored call over all chunks, with short-writing targets (1..3 bytes per write; odd bounds also answer Interrupted on every third call). MappedWrite chunkings with empty writes also flush between the write calls. Non-trivial: (1) a stream carries more than one 64 KiB pipe buffer while the other stream is still open; (2) input contains a marker and a write boundary falls inside a segment; distinct = hash of script / (input, chunking).");
     ctx.assume("deadlock is decided by a 30 s watchdog plus /proc/<child>/syscall showing the child blocked in write(2) on fd 1 or 2; any other watchdog expiry is reported as inconclusive (exit 2)");
     ctx.assume("the OS scheduler is not controlled; the blocking structure is controlled through the child's script");
     ctx.set_exhaustive(true);
